@@ -4,9 +4,16 @@
   model `MellonModel/Serial.lean` (Python values with floats as IEEE-754 bit patterns), for every
   value / kernel expression / JSON codec satisfying the text contract `JsonCodec`.
 
-  Normal form.  `v.norm = v.normF canonNaN`: NumPy scalars become Python scalars of equal value and
-  every NaN becomes the quiet NaN `0x7ff8000000000000` (JSON text has only the token `NaN`);
-  everything else — dtype, shape, element bits, −0.0, ±inf, subnormals, strings, nesting — is kept.
+  Normal form.  `v.norm = v.normF canonNaN`: NumPy scalars become Python scalars of equal value, a
+  tuple becomes the list of its elements (JSON has no tuple) and every NaN becomes the quiet NaN
+  `0x7ff8000000000000` (JSON text has only the token `NaN`); everything else — dtype, shape, element
+  bits, −0.0, ±inf, subnormals, strings, nesting — is kept.
+
+  The model mirrors `mellon/util.py` with the repairs of the three defects found earlier
+  (`numpy.bool_` → `bool`; lists / tuples / slice members serialised element-wise), so the value
+  theorem is now stated at full strength: `WF` excludes only what the property itself excludes — the
+  reserved string `"None"`, objects of foreign types — and tuple-vs-list identity is absorbed by the
+  normal form.
 -/
 import MellonProofs.SerialLemmas
 
@@ -15,20 +22,9 @@ open Mellon
 
 /-! ### values -/
 
-/-
-  Full-strength statement (for the whole value grammar of the property, i.e. with `numpy.bool_`
-  scalars and NumPy scalars nested in lists / slices allowed):
-
-      ∀ v ∈ grammar, roundTripJsonWith C v = .ok v.norm
-
-  It is FALSE for the current code: see `value_roundtrip_counterexample_npbool`,
-  `…_list_of_numpy`, `…_slice_of_numpy` below.  `PyVal.WF` is the grammar minus exactly these three
-  regions (and minus what the property itself excludes: the string "None", tuples, foreign objects).
--/
-
 /-- `deserialize(json.loads(json.dumps(make_serializable(v))))` returns the normal form of `v`,
     for every well-formed value and every JSON codec that meets the text contract. -/
-theorem value_roundtrip_partial {Text : Type} (C : JsonCodec Text) (v : PyVal) (h : v.WF canonNaN = true) :
+theorem value_roundtrip {Text : Type} (C : JsonCodec Text) (v : PyVal) (h : v.WF canonNaN = true) :
     roundTripJsonWith C v = .ok v.norm := by
   unfold roundTripJsonWith
   rw [jsonPass_jsonLike C _ (jsonLike_ms canonNaN v h)]
@@ -43,32 +39,32 @@ theorem value_roundtrip_dict (v : PyVal) (h : v.WF id = true) :
 
 /-- The executable codec of the driver is an instance. -/
 theorem value_roundtrip_driver (v : PyVal) (h : v.WF canonNaN = true) : roundTripJson v = .ok v.norm :=
-  value_roundtrip_partial idCodec v h
+  value_roundtrip idCodec v h
 
 /-- `≈` of the property: equal normal forms (a NumPy scalar ≈ the Python scalar of equal value;
     arrays compare by dtype, shape and bits; NaNs as NaN). What comes back is `≈` the original. -/
 theorem value_roundtrip_equiv {Text : Type} (C : JsonCodec Text) (v : PyVal) (h : v.WF canonNaN = true) :
     ∃ w, roundTripJsonWith C v = .ok w ∧ w.norm = v.norm :=
-  ⟨v.norm, value_roundtrip_partial C v h, norm_idem v⟩
+  ⟨v.norm, value_roundtrip C v h, norm_idem v⟩
 
 /-- Every non-NaN double keeps its bits (−0.0, ±inf, subnormals included) … -/
 theorem float_bits_preserved {Text : Type} (C : JsonCodec Text) (b : UInt64) (h : isNaNBits b = false) :
     roundTripJsonWith C (.float b) = .ok (.float b) := by
-  rw [value_roundtrip_partial C _ rfl]
+  rw [value_roundtrip C _ rfl]
   simp [PyVal.norm, PyVal.normF, canonNaN, h]
 
 /-- … and a NaN comes back as a NaN. -/
 theorem nan_stays_nan {Text : Type} (C : JsonCodec Text) (b : UInt64) (h : isNaNBits b = true) :
     ∃ b', roundTripJsonWith C (.float b) = .ok (.float b') ∧ isNaNBits b' = true := by
   refine ⟨0x7ff8000000000000, ?_, by decide⟩
-  rw [value_roundtrip_partial C _ rfl]
+  rw [value_roundtrip C _ rfl]
   simp [PyVal.norm, PyVal.normF, canonNaN, h]
 
 /-- Arrays of any rank (empty ones included) keep dtype, shape and — NaN payloads apart — bits. -/
 theorem array_roundtrip {Text : Type} (C : JsonCodec Text) (dt : Dtype) (sh : List Nat) (d : List Scalar)
     (hlen : d.length = prodL sh) (hdt : ∀ s ∈ d, s.dtype = dt) :
     roundTripJsonWith C (.arr dt sh d) = .ok (.arr dt sh (d.map (Scalar.mapF canonNaN))) := by
-  rw [value_roundtrip_partial C]
+  rw [value_roundtrip C]
   · rfl
   · simp only [PyVal.WF, Bool.and_eq_true, beq_iff_eq, List.all_eq_true]
     exact ⟨hlen, hdt⟩
@@ -92,7 +88,7 @@ theorem array_roundtrip_exact {Text : Type} (C : JsonCodec Text) (dt : Dtype) (s
 theorem numpy_scalar_becomes_python {Text : Type} (C : JsonCodec Text) (i : Int) (b : UInt64) :
     roundTripJsonWith C (.npInt i) = .ok (.int i)
     ∧ roundTripJsonWith C (.npFloat b) = .ok (.float (canonNaN b)) :=
-  ⟨value_roundtrip_partial C _ rfl, value_roundtrip_partial C _ rfl⟩
+  ⟨value_roundtrip C _ rfl, value_roundtrip C _ rfl⟩
 
 /-- The string `"None"` is the only string that does not survive: it reads back as `None`. -/
 theorem reserved_token {Text : Type} (C : JsonCodec Text) :
@@ -103,36 +99,33 @@ theorem reserved_token {Text : Type} (C : JsonCodec Text) :
     rw [show makeSerializable (.str "None") = .str "None" from rfl, jsonPass_jsonLike C _ rfl]
     rfl
   · intro s hs
-    exact value_roundtrip_partial C (.str s) (by simpa [PyVal.WF] using hs)
+    exact value_roundtrip C (.str s) (by simpa [PyVal.WF] using hs)
 
 /-- `None` itself is written as that token and comes back. -/
 theorem none_roundtrip {Text : Type} (C : JsonCodec Text) : roundTripJsonWith C .none = .ok .none :=
-  value_roundtrip_partial C _ rfl
+  value_roundtrip C _ rfl
 
-/-- A tuple is a container JSON cannot keep: it comes back as a list (excluded by `WF`). -/
-theorem tuple_becomes_list {Text : Type} (C : JsonCodec Text) (xs : List PyVal) (h : PyVal.plainL xs = true) :
-    roundTripJsonWith C (.tuple xs) = .ok (.list (PyVal.normFL canonNaN xs)) := by
-  obtain ⟨js, h1, h2⟩ := toJsonL_jsonLike xs (jsonLikeL_of_plainL xs h)
-  simp [roundTripJsonWith, makeSerializable, jsonPass, toJson, h1, Except.map, C.spec, jsonCanon, ofJson, h2,
-    deserialize, strToNone]
+/-- A tuple is a container JSON cannot keep: it comes back as the list of its (normalised) elements. -/
+theorem tuple_becomes_list {Text : Type} (C : JsonCodec Text) (xs : List PyVal) (h : PyVal.WFL canonNaN xs = true) :
+    roundTripJsonWith C (.tuple xs) = .ok (.list (PyVal.normFL canonNaN xs)) :=
+  value_roundtrip C (.tuple xs) (by simpa [PyVal.WF] using h)
 
-/-- Counter-example 1 (recorded finding `C19:np-bool-scalar`): a `numpy.bool_` scalar is passed
-    through by `make_serializable` and refused by `json.dumps`. -/
-theorem value_roundtrip_counterexample_npbool :
-    roundTripJson (.npBool true) = .error (.typeError "not-json-serializable")
-    ∧ roundTripJson (.npBool true) ≠ .ok (PyVal.norm (.npBool true)) := by
-  refine ⟨rfl, ?_⟩
-  rw [show roundTripJson (.npBool true) = .error (.typeError "not-json-serializable") from rfl]
-  exact fun h => nomatch h
+/-- Regression of repaired defect F1: a `numpy.bool_` scalar comes back as the Python bool. -/
+theorem numpy_bool_roundtrip {Text : Type} (C : JsonCodec Text) (b : Bool) :
+    roundTripJsonWith C (.npBool b) = .ok (.bool b) := value_roundtrip C _ rfl
 
-/-- Counter-example 2 (recorded finding `C19:numpy-scalar-in-list-or-slice`): `make_serializable`
-    does not look inside lists, e.g. `active_dims = list(np.arange(2))`. -/
-theorem value_roundtrip_counterexample_list_of_numpy :
-    roundTripJson (.list [.npInt 0, .npInt 1]) = .error (.typeError "not-json-serializable") := rfl
+/-- Regression of repaired defect F2: NumPy scalars inside lists (`active_dims = list(np.arange(2))`)
+    and slices are converted; in general a list round-trips element-wise. -/
+theorem list_roundtrip {Text : Type} (C : JsonCodec Text) (xs : List PyVal) (h : PyVal.WFL canonNaN xs = true) :
+    roundTripJsonWith C (.list xs) = .ok (.list (PyVal.normFL canonNaN xs)) :=
+  value_roundtrip C (.list xs) (by simpa [PyVal.WF] using h)
 
-/-- Counter-example 3 (same finding): … nor inside slices. -/
-theorem value_roundtrip_counterexample_slice_of_numpy :
-    roundTripJson (.slice (.npInt 0) (.npInt 2) .none) = .error (.typeError "not-json-serializable") := rfl
+theorem list_of_numpy_roundtrip :
+    roundTripJson (.list [.npInt 0, .npInt 1]) = .ok (.list [.int 0, .int 1])
+    ∧ roundTripJson (.slice (.npInt 0) (.npInt 2) .none) = .ok (.slice (.int 0) (.int 2) .none) := ⟨rfl, rfl⟩
+
+/-- The reserved token is reserved everywhere: inside a list it reads back as `None` too. -/
+theorem reserved_token_in_list : roundTripJson (.list [.str "None"]) = .ok (.list [.none]) := rfl
 
 /-! ### kernel expressions -/
 
@@ -216,13 +209,14 @@ theorem active_dims_tuple_list (xs : List PyVal) : pyToAd (.tuple xs) = pyToAd (
 theorem active_dims_roundtrip {Text : Type} (C : JsonCodec Text) (ad : ActiveDims) :
     roundTripJsonWith C (adToPy ad) = .ok (adToPy ad) ∧ pyToAd (adToPy ad) = some ad := by
   refine ⟨?_, pyToAd_adToPy ad⟩
-  rw [value_roundtrip_partial C _ (WF_adToPy canonNaN ad)]
+  rw [value_roundtrip C _ (WF_adToPy canonNaN ad)]
   exact congrArg _ (normF_adToPy canonNaN ad)
 
 /-! ### non-vacuity -/
 
-example : (PyVal.dict [("a", .arr .f64 [0, 3] []), ("b", .set [.npInt 1, .float 0x7ff8000000000001]),
-    ("c", .slice .none (.int (-1)) .none), ("None", .list [.none, .str "None"])]).WF canonNaN = true := by decide
+example : (PyVal.dict [("a", .arr .f64 [0, 3] []), ("b", .set [.npInt 1, .float 0x7ff8000000000001, .npBool true]),
+    ("c", .slice .none (.npInt (-1)) .none), ("None", .list [.none, .npFloat 0, .tuple [.arr .i64 [1] [.i 3]]])]).WF canonNaN
+      = true := by decide
 
 example : roundTripJson (.arr .i64 [0, 3] []) = .ok (.arr .i64 [0, 3] []) := rfl
 
